@@ -4,6 +4,7 @@ From PyxisModel Require Import Base Sexp Grammar SemTypes Registry Sem Emit.
 From PyxisModel Require C03Core.
 From PyxisModel Require Import Syntax.
 From PyxisModel Require WholeBuild OrderIndep.
+From PyxisModel Require SyntaxItems ModuleEq.
 Local Open Scope string_scope.
 Local Open Scope list_scope.
 
@@ -163,7 +164,35 @@ Definition run_c18 (args : list sexp) : sexp :=
   | _ => SList [Atom "c18"; Atom "bad_case"]
   end.
 
+(** C18, whole modules: the Coq module parser on the token stream of the real lexer, compared (by the
+    proved-correct [gmodule_eqb]) with the AST the real parser returned:
+    (c18m (toks TOK...) REAL)   REAL = the module S-expression, or [none] when the real parser refused.
+    A stream with a token the model has no constructor for (float, char ... literals, which the
+    grammar accepts nowhere) counts as refused. *)
+Definition run_c18m (args : list sexp) : sexp :=
+  match args with
+  | [SList (Atom "toks" :: toks); real] =>
+    match omap (tok_of_sexp (S (sexp_depth (SList toks)))) toks with
+    | None => SList [Atom "c18m"; Atom "err"]
+    | Some ts =>
+      match SyntaxItems.parse_module ts with
+      | None => SList [Atom "c18m"; Atom "err"]
+      | Some m =>
+        match real with
+        | Atom _ => SList [Atom "c18m"; SList [Atom "ok"; Atom "unchecked"]]
+        | _ =>
+          match gmodule_of_sexp real with
+          | Some mr => SList [Atom "c18m"; SList [Atom "ok"; Atom (if ModuleEq.gmodule_eqb m mr then "same" else "differ")]]
+          | None => SList [Atom "c18m"; SList [Atom "ok"; Atom "real_unreadable"]]
+          end
+        end
+      end
+    end
+  | _ => SList [Atom "c18m"; Atom "bad_case"]
+  end.
+
 Definition run_case_sexp (e : sexp) : sexp :=
+  match tagged "c18m" e with Some args => run_c18m args | None =>
   match tagged "c18" e with Some args => run_c18 args | None =>
   match tagged "c03" e with Some fields => run_c03 fields | None =>
   match case_of_sexp e with
@@ -173,7 +202,7 @@ Definition run_case_sexp (e : sexp) : sexp :=
     | x => x
     end
   | None => SList [Atom "model"; SList [Atom "bad_case"]]
-  end end end.
+  end end end end.
 
 (** text in, text out: one result line per case *)
 Definition run_cases (input : string) : list string :=
